@@ -42,6 +42,9 @@ struct Run {
 static const char *DOMS[] = {"t.example.com", "a.io", "tunnel.some-quite-long-name.of-a.delegated.zone.example.org", "x1.Y2.z3.net"};
 
 inline bool &tight_m() { static bool b = false; return b; }
+// C08 only: a tunnel domain of 84 characters with -M set to domain + 24..32, the corner in which the fixed-size handshake messages
+// (login: 33 characters in front of the domain) are the longest names the limit still admits
+inline bool &long_dom() { static bool b = false; return b; }
 
 inline scn::Config gen_config(Tape &t, Mode mode)
 {
@@ -62,6 +65,11 @@ inline scn::Config gen_config(Tape &t, Mode mode)
 		static const char *LONGD[] = {"tunnel.some-quite-long-name.of-a.delegated.zone.example.org", "a-rather-long-label-of-some-sixty-characters-1234567890-123456.another-label-of-some-length.example-zone.net", "t.example.com"};
 		c.domain = LONGD[t.below(3)]; c.srv_domain.clear();
 		c.maxlen = std::max(10, std::min(255, (int)c.domain.size() + t.range(-8, 30)));
+	}
+	if (long_dom()) {
+		c.domain = "tunnel.some-quite-long-name.of-a.delegated.zone.with-a-few-more-labels.example.org";
+		if (c.domain.size() < 76) abort();
+		c.maxlen = std::min(255, (int)c.domain.size() + 24 + (int)t.below(9));
 	}
 	if (t.chance(1, 5)) { size_t p = c.domain.find('.'); c.srv_domain = "*" + c.domain.substr(p); if (!ref::valid_topdomain(c.srv_domain, true)) c.srv_domain.clear(); }
 	// fragment size: autoprobe or forced
@@ -240,6 +248,17 @@ inline void run_tunnel(Tape &t, Mode mode, Run &R)
 			maxbody = (size_t)std::max(0, std::min(1400, 12 * cap - 40));
 		}
 		o.pkt = scn::gen_packet(t, dst, src, ident++, maxbody);
+		if (c.raw_mode && o.pkt.size() % 3 == 0 && o.pkt.size() >= 24) {
+			// raw mode (no fragmenting, packets travel whole): one packet in three gets an IPv4 total length at a byte-pattern boundary
+			// (0x0100, 0x0200, 0x0201, ... -- values that read differently in the other byte order); derived from the size already drawn,
+			// so that the choice tapes of all other cases keep their meaning
+			static const size_t BL[] = {256, 512, 513, 768, 770, 1024, 1027, 1280, 1284, 255, 257, 511};
+			size_t tot = BL[(o.pkt.size() / 3) % 12];
+			size_t old = o.pkt.size();
+			o.pkt.resize(4 + tot);
+			for (size_t k = old; k < o.pkt.size(); k++) o.pkt[k] = (uint8_t)(k * 7 + old);
+			o.pkt[6] = (uint8_t)(tot >> 8); o.pkt[7] = (uint8_t)tot;
+		}
 		size_t z = refproto::zcompress(o.pkt).size();
 		bool fits_up = (int)z <= 12 * upcap, fits_dn = (int)z <= 12 * dncap;
 		if (c.raw_mode) { fits_up = fits_dn = o.pkt.size() <= 4000; }
